@@ -103,7 +103,9 @@ CHECKS.update({
                   "shifts) + TLC-judged exact shifted residuals of the real operators (table flux) + ulps tokens on real solves",
         text="Pure index algebra: TLC enumerates all data and shifts on N<=5 (1D) and grids up to 4x2/3x3 including nx or ny = 1,2,3; "
              "the real operators with the generic table flux give dyadic residuals that TLC compares exactly with the rolled "
-             "residual; real models, fluxes and integrators are compared on rolled initial data.",
+             "residual; real models, fluxes and integrators are compared on rolled initial data. Apa_Recon.tla proves the seam "
+             "distance of the periodic gradient origin independent and equal to the interior distance on every uniform mesh "
+             "(Apalache, symbolic).",
         ref="DESIGN.md section 6 C14"),
     "C15": dict(
         technique="TLA+ model checking of transposition / reflection / row-wise 1D agreement of the 2D free-flux operator (TLC) + "
